@@ -20,15 +20,18 @@ CLAIMED = {
            "`go build` as the judge; go-openapi/validate as the judge of a valid spec. Modelled rather than verified: nothing of the templates. Exploration, not proof: (a)-(c)."),
  },
  "C02": {
-  "technique": "Lean 4 proof (reference validity semantics; theorem that the documented relaxation can only matter on explicit zero values) + compiled generated models vs the semantics, calibrated against go-openapi/validate",
-  "text": ("Proof, partial: `valid` is the draft-4/Swagger-2.0 subset semantics, `validSkip` the same with the documented relaxation applied wherever it may apply; "
-           "skip_agrees_without_zero proves for EVERY schema, definitions and instance that the two coincide unless some object member is an explicit zero value - so outside those "
-           "instances the generated Validate has exactly one admissible verdict; the gap is shown real in both directions; required_null_is_missing fixes the null reading. "
-           "Tie: definition sets are generated, their models compiled, and valid-by-construction instances plus single-point mutations are decoded and validated; the verdict must equal "
-           "`valid` wherever valid = validSkip; `valid` itself is compared with go-openapi/validate on every null-free instance. Not proved: a model of the generated Validate code "
-           "(pointer / omitempty plan) refining these semantics - the design's gen_refines is future work."),
+  "technique": "Lean 4 proof (reference validity semantics; all readings of the documented relaxation coincide unless some object member holds an explicit zero value) + compiled generated models vs the semantics, calibrated against go-openapi/validate",
+  "text": ("Proof, partial: `validG m` is the draft-4 / Swagger-2.0 subset semantics (types, enums, bounds incl. exclusive, multipleOf, lengths, item counts, uniqueness, required, properties, "
+           "additionalProperties, allOf, $ref, minProperties / maxProperties) under a reading m of the documented relaxation: `ref` applies it nowhere, `relaxed` everywhere, `any` / `all` take at every site "
+           "whichever reading accepts / rejects - the generated code applies the relaxation per site (it depends on whether a member is a pointer), so every admissible validator lies between `all` and `any`. "
+           "readings_agree_without_zero proves for EVERY schema, definitions, fuel, instance and pair of readings that they coincide unless some object member is an explicit zero value "
+           "(skip_agrees_without_zero, any_all_agree_without_zero): outside those instances the generated Validate has exactly one admissible verdict; the gap is shown real in both directions; "
+           "required_null_is_missing fixes the null reading; property_counts. Tie: definition sets (random shapes + four fixed shapes) are generated, their models compiled, and valid-by-construction "
+           "instances plus single-point mutations (incl. zero items) are decoded and validated; the verdict must equal validAll wherever validAll = validAny; `valid` itself is compared with "
+           "go-openapi/validate on every null-free instance. Not proved: a model of the generated Validate code (pointer / omitempty plan) refining these semantics."),
   "note": ("Trusted: Lean kernel + audited axioms; genlab models lab (generated models + glue main); go-openapi/validate as calibration oracle. Modelled rather than verified: "
-           "the generated validators (exercised, not modelled), encoding/json decoding. Fragment: no tuples, polymorphism, patterns, formats, untyped objects."),
+           "the generated validators (exercised, not modelled), encoding/json decoding. Fragment: no tuples, polymorphism, patterns, formats, untyped objects; property counts only on objects without "
+           "array members and not inside allOf members (two known findings / observations explain why)."),
  },
  "C03": {
   "technique": "Lean 4 proof (agreement of the model of the generated binder with a reference binder for all specs and raw values of the fragment; soundness; counterexample theorems) + compiled generated servers",
